@@ -30,6 +30,11 @@ CACHE = VERIF / ".cache"
 sys.path.insert(0, str(VERIF / "lib"))
 from harness_map import HARNESS_FILES, PROPERTY_INFO  # noqa: E402
 
+if os.environ.get("VERIF_EXTRA_HARNESS"):
+    # development aid: {"<abs path to harness .rs>": {"crate": .., "anchor": ..}}
+    HARNESS_FILES = dict(HARNESS_FILES)
+    HARNESS_FILES.update(json.loads(os.environ["VERIF_EXTRA_HARNESS"]))
+
 ENV_BASE = dict(os.environ)
 ENV_BASE.update({
     "CARGO_NET_OFFLINE": "true",
@@ -38,6 +43,17 @@ ENV_BASE.update({
 # the Kani toolchain is pinned by cargo-kani itself; make sure a stray override does not leak in
 ENV_BASE.pop("RUSTUP_TOOLCHAIN", None)
 ENV_BASE.pop("RUSTFLAGS", None)
+
+
+# Memory-safety (pointer validity) checks and assertion-reachability instrumentation are switched off:
+# every claimed property is functional, the code under test is safe Rust (memory safety is the
+# compiler's guarantee), and these checks multiply the formula size by ~3-5x (measured). Arithmetic
+# overflow checks, user assertions/panics, unwinding assertions and kani::cover! witnesses stay on.
+KANI_FLAGS = os.environ.get("VERIF_KANI_FLAGS",
+                            "-Z unstable-options --no-memory-safety-checks --no-assertion-reach-checks").split()
+
+
+CBMC_ARGS = os.environ.get("VERIF_CBMC_ARGS", "--max-field-sensitivity-array-size 4096").split()
 
 
 def log(*a):
@@ -150,10 +166,16 @@ def make_overlay(root: Path, crates_needed, use_real_indexmap=False):
             continue
         dst = root / "crates" / info["crate"] / "src" / ("verif_h_" + hf.replace("/", "_"))
         shutil.copy(src, dst)
-        common = VERIF / "harness" / "common.rs"
         modname = info.get("mod", "verif_harness")
         with open(anchor, "a") as f:
             f.write("\n#[cfg(kani)] #[path = \"%s\"] mod %s;\n" % (dst, modname))
+    # shared stubs/helpers at every crate root
+    for c in CRATES:
+        lib = root / "crates" / c / "src" / "lib.rs"
+        dst = root / "crates" / c / "src" / "verif_common.rs"
+        shutil.copy(VERIF / "harness" / "common.rs", dst)
+        with open(lib, "a") as f:
+            f.write("\n#[cfg(kani)] #[path = \"%s\"] pub mod verif_common;\n" % dst)
     members = ", ".join('"crates/%s"' % c for c in crates_needed)
     patch = []
     if not use_real_indexmap:
@@ -237,6 +259,8 @@ def parse_log(text):
                 cur["loc"] = m.group(1)
                 if ".cover." in cur["id"] or cur["status"] in ("SATISFIED", "UNSATISFIABLE"):
                     r["covers"].append(cur)
+                elif cur["status"] == "ERROR":
+                    r["error_checks"] = r.get("error_checks", 0) + 1
                 elif cur["status"] not in ("SUCCESS", "UNREACHABLE"):
                     r["failed_checks"].append(cur)
                 cur = None
@@ -261,8 +285,13 @@ def run_harness(h, overlay: Path, target: Path, logdir: Path, timeout_s, mem_gb,
            "--target-dir", str(target)]
     if h["features"]:
         cmd += ["--features", h["features"]]
+    cmd += KANI_FLAGS
     if playback:
         cmd += ["-Z", "concrete-playback", "--concrete-playback=print"]
+    # must be last: passed through to CBMC. Field sensitivity for arrays up to 4096 cells (default 64)
+    # lets symex constant-propagate through heap objects larger than 64 bytes (measured: without it
+    # every table lookup on concrete keys becomes a solver problem).
+    cmd += ["--cbmc-args"] + CBMC_ARGS
     lf = logdir / ((h["name"]) + (".playback" if playback else "") + ".log")
     t0 = time.time()
     mem_kb = mem_gb * 1024 * 1024
@@ -297,9 +326,9 @@ def run_harness(h, overlay: Path, target: Path, logdir: Path, timeout_s, mem_gb,
         else:
             r["status"] = "error"
     elif r["status"] == "failed":
-        if "std::bad_alloc" in text or "CBMC failed with status" in text or "Status: ERROR" in text:
-            # CBMC crashed (usually ulimit): not a verdict
-            if not r["failed_checks"]:
+        if "std::bad_alloc" in text or "CBMC failed with status" in text or r.get("error_checks"):
+            # CBMC crashed (usually the ulimit): every check is reported with Status ERROR; not a verdict
+            if not [c for c in r["failed_checks"] if c["status"] == "FAILURE"]:
                 r["status"] = "oom"
     return r
 
